@@ -833,10 +833,13 @@ type InvCall struct {
 
 // InvScenario drives an Invalidator.
 type InvScenario struct {
-	SkipIntervalNs int64       `json:"skip_interval_ns,omitempty"` // 0: default 15s
-	Callbacks      int         `json:"callbacks"`
-	CallbackSleep  []int64     `json:"callback_sleep,omitempty"` // per callback: simulated time spent inside
-	Clients        [][]InvCall `json:"clients"`
+	SkipIntervalNs int64   `json:"skip_interval_ns,omitempty"` // 0: default 15s
+	Callbacks      int     `json:"callbacks"`
+	CallbackSleep  []int64 `json:"callback_sleep,omitempty"` // per callback: simulated time spent inside
+	// FirstSlowNs: the very first callback invocation of the run takes that much longer (a cold start): calls
+	// that arrive meanwhile queue on the Invalidator for a long time, the later invalidations are quick.
+	FirstSlowNs int64       `json:"first_slow_ns,omitempty"`
+	Clients     [][]InvCall `json:"clients"`
 }
 
 func genC17(r *rand.Rand, _ int, _ string) *Scenario {
@@ -856,6 +859,10 @@ func genC17(r *rand.Rand, _ int, _ string) *Scenario {
 
 	for i := 0; i < iv.Callbacks; i++ {
 		iv.CallbackSleep = append(iv.CallbackSleep, pick(r, int64(0), 0, 1, si/2, si, 2*si))
+	}
+
+	if chance(r, 0.3) && iv.Callbacks > 0 {
+		iv.FirstSlowNs = pick(r, si+si/2, 2*si, 3*si)
 	}
 
 	nc := 1 + r.IntN(8)
@@ -906,6 +913,8 @@ func runInvalidator(e *env) {
 	var (
 		recs []*invRec
 		cur  = map[string]*invRec{} // task id -> call in progress
+
+		firstDone bool
 	)
 
 	for c := 0; c < sc.Callbacks; c++ {
@@ -924,6 +933,12 @@ func runInvalidator(e *env) {
 
 			if d := sc.CallbackSleep[c]; d > 0 {
 				zs.Sleep(dur(d))
+			}
+
+			if sc.FirstSlowNs > 0 && !firstDone {
+				firstDone = true
+
+				zs.Sleep(dur(sc.FirstSlowNs))
 			}
 
 			cb.exit = e.s.NextSeq()
